@@ -244,6 +244,11 @@ def baseline(case, tmp):
     out = os.path.join(tmp, "base" + case.get("ext", ".fits"))
     snaps = os.path.join(tmp, "snaps")
     os.makedirs(snaps, exist_ok=True)
+    if case.get("earlier_run"):
+        # results are written to the same output path again and again: an EARLIER staged run of this process (same
+        # configuration, other random numbers - the same table layout) has left its final table at this very path
+        with cut("compute(write_stages=True) [earlier run to the same output path]"):
+            run(dict(case, seed=(case["seed"] + 1) % 2**31), out, True)
     spy = WriteSpy(out, snap_dir=snaps)
     with cut("compute(write_stages=True)"):
         tab = run(case, out, True, spy)
@@ -293,6 +298,8 @@ def body_raise(case):
         tab, final, model, snaps = baseline(case, tmp)
         n = len(model)
         labels.add(f"stores={n}")
+        if case.get("earlier_run"):
+            labels.add("earlier_staged_run_to_the_same_path")
         kinds = case["kinds"]
         for k in range(0, n):
             # (a) the next intermediate write (#k+1) fails before touching the file
@@ -430,6 +437,7 @@ def conf_case(kinds):
             "det": st.sampled_from([33.0, 525.0, 525.0, 2000.0, 1.0, 5.0]),
             "exc": st.sampled_from(["Exception", "KeyboardInterrupt", "KeyboardInterrupt", "SystemExit"]),
             "other_fs": st.sampled_from([False, False, True]),
+            "earlier_run": st.sampled_from([False, True]),
             "lat": st.sampled_from([0.3, 0.0]),
             "lon": st.sampled_from([1.1, 0.0]),
             "ra": st.floats(0.0, 2 * math.pi),
@@ -457,6 +465,8 @@ def _exhaustive_defaults(tier):
     yield dict(_default_case("Diffuse"), ext=".ecsv", optical=False, kinds=["write"])
     yield dict(_default_case("Target"), aim=None, ra=0.0, dec=1.55, lat=1.55)
     yield dict(_default_case("Diffuse"), other_fs=True, kinds=["write"])
+    yield dict(_default_case("Diffuse"), earlier_run=True, kinds=["write"])
+    yield dict(_default_case("Target"), earlier_run=True, kinds=[])
     # a mountain-top instrument and bright showers: many decays above the instrument, many events with signal
     yield dict(_default_case("Diffuse"), det=1.0, n=250, spectrum={"id": "monospectrum", "log_nu_energy": 10.0}, radio=False, kinds=[])
     yield dict(_default_case("Diffuse"), det=5.0, n=250, spectrum={"id": "monospectrum", "log_nu_energy": 10.5}, kinds=[])
